@@ -880,6 +880,9 @@ def replaceNonsenseWithNones(data: np.ndarray, paramName: str) -> np.ndarray:
     # NOTE: This is closely-related to the NONE_MAP.
     if np.issubdtype(data.dtype, np.floating):
         isNone = np.isnan(data)
+    elif np.issubdtype(data.dtype, np.unsignedinteger):
+        # NONE_MAP uses max - 2 for the unsigned types
+        isNone = data == np.iinfo(data.dtype).max - 2
     elif np.issubdtype(data.dtype, np.integer):
         isNone = data == np.iinfo(data.dtype).min + 2
     elif np.issubdtype(data.dtype, np.str_):
